@@ -35,4 +35,13 @@ theorem C02_keywords :
   obtain ⟨a, b, c, d, e, f⟩ := key g hg
   simp [decodeSimple, omniDec, a, b, c, d, e, f]
 
+/-- **C02, bare strings**: a string that any of the four encoders writes without quotes is read back by
+    the default decoder as that very string — `needs_quotes` asks the default loader's decoder as well
+    as the encoder's own (the repair of the defect this property exposed: `12:00-5`, written bare by the
+    PVL and ISIS encoders, was read by the default loader as a time with a zone offset) -/
+theorem C02_bare_string (c : EncCfg) (s : Str) (h : encodeValue c (.str s) = .ok s) :
+    decodeSimple omniDec s = .ok (.str s) := by
+  have := C17_unquoted_roundtrip_default c s (by simpa [encodeValue, encodeSimple] using h)
+  simpa [omniDec, permissiveDec] using this
+
 end Pvl
